@@ -101,12 +101,14 @@ def units(tier):
         us.append({'k': 'seq', 'seed': n})
     for n in range(16):
         us.append({'k': 'repeat', 'seed': n})
+    for n in range(16):
+        us.append({'k': 'pair', 'seed': n})
     return us
 
 
 def space(tier):
     return {'bound': soup.space_text(tier) + f"; {len(TRIGGERS)} trigger phrases x every token boundary of 16 seeds x "
-                     f"{len(TRIGGER_MODES)} modes; all sequences of <= {SEQ_DEPTH[tier]} of {len(SEQ_OPS)} re-parse operations on 16 seeds x "
+                     f"{len(TRIGGER_MODES)} modes; every ordered pair of {len(PAIR_PHRASES)} phrases of different kinds x {len(PAIR_ARRANGEMENTS)} arrangements x every token boundary x the same modes; all sequences of <= {SEQ_DEPTH[tier]} of {len(SEQ_OPS)} re-parse operations on 16 seeds x "
                      f"{len(SEQ_PHRASES)} flag-raising suffixes x {len(SEQ_MODES)} modes", 'caps_hit': []}
 
 
@@ -213,6 +215,49 @@ def trigger_case(acc, seed_n, pos, phrase, mname):
     return True
 
 
+# one phrase per kind of warning; every ordered pair of two *different* kinds is placed together (the kinds are searched one after
+# the other over the same text, so the outcome for one kind must not depend on where another kind's wording stands)
+PAIR_PHRASES = ['less and except the north 10 acres', 'insofar as it covers', 'including all accretions',
+                'from the surface to the base of the formation', 'the Johnston wellbore']
+PAIR_ARRANGEMENTS = ['adjacent', 'second_at_end']
+
+
+def pair_case(acc, seed_n, pos, p1, p2, arr, mname):
+    layout, si, seed = soup.seeds()[seed_n]
+    toks = soup.tokenize(seed)
+    bounds = [i for i in range(len(toks) + 1) if i == 0 or i == len(toks) or toks[i - 1].isspace() or toks[i].isspace()]
+    if pos >= len(bounds):
+        return False
+    b = bounds[pos]
+    if arr == 'adjacent':
+        text = ''.join(toks[:b]) + ' ' + p1 + ' ' + p2 + ' ' + ''.join(toks[b:])
+    else:
+        text = ''.join(toks[:b]) + ' ' + p1 + ' ' + ''.join(toks[b:]) + ' ' + p2
+    key = f"pair|{mname}|{text}"
+    case = {'k': 'pair', 'seed': seed_n, 'pos': pos, 'p1': p1, 'p2': p2, 'arr': arr, 'mode': mname, 'text': text}
+    try:
+        d = soup.parse(_p, text, soup.mode_by_name(mname))
+    except Exception:  # noqa
+        acc.case(key, 'EXC', nontrivial=False)
+        acc.extra['exceptions_left_to_C03'] += 1
+        return True
+    acc.case(key, sorted(set(map(str, d.w_flags))))
+    acc.states += 1
+    acc.transitions += 1
+    for phrase in (p1, p2):
+        flag, words = TRIGGERS[phrase]
+        if flag not in d.w_flags:
+            acc.violation('trigger_flag_missing', f"C10:trigger_flag_missing:{flag}:{key}", case, got=d.w_flags, exp=flag,
+                          note='two kinds of trigger wording in one description')
+            return True
+        ctxs = [c for f, c in d.w_flag_lines if f == flag and isinstance(c, str)]
+        if not any(any(w.lower() in c.lower() for w in words) for c in ctxs):
+            acc.violation('trigger_context_missing', f"C10:trigger_context_missing:{flag}:{key}", case, got=ctxs, exp=words)
+            return True
+    acc.guard('pair_ok')
+    return True
+
+
 def handed_down(d):
     """-> (class, detail) of the first broken invariant on the description or its tracts, or None"""
     bad = check_flags(d)
@@ -315,6 +360,16 @@ def run_unit(unit, tier):
             for phrase in SEQ_PHRASES:
                 for mname in SEQ_MODES:
                     seq_case(acc, unit['seed'], phrase, mname, hist)
+    elif unit['k'] == 'pair':
+        for p1 in PAIR_PHRASES:
+            for p2 in PAIR_PHRASES:
+                if p1 == p2:
+                    continue
+                for arr in PAIR_ARRANGEMENTS:
+                    for mname in TRIGGER_MODES:
+                        pos = 0
+                        while pair_case(acc, unit['seed'], pos, p1, p2, arr, mname):
+                            pos += 1
     elif unit['k'] == 'trigger':
         for phrase in TRIGGERS:
             for mname in TRIGGER_MODES:
@@ -333,6 +388,8 @@ def replay(case):
         seq_case(acc, case['seed'], case['phrase'], case['mode'], tuple(case['ops']))
     elif case.get('k') == 'trigger':
         trigger_case(acc, case['seed'], case['pos'], case['phrase'], case['mode'])
+    elif case.get('k') == 'pair':
+        pair_case(acc, case['seed'], case['pos'], case['p1'], case['p2'], case['arr'], case['mode'])
     else:
         judge(acc, case['text'], soup.mode_by_name(case['mode']))
     return acc.viol
@@ -341,7 +398,7 @@ def replay(case):
 def guards(info):
     g = info['guards']
     out = []
-    for name in ('error_flag_seen', 'warning_flag_seen', 'tract_flag_seen', 'trigger_ok', 'seq_flags_checked', 'repeat_checked'):
+    for name in ('error_flag_seen', 'warning_flag_seen', 'tract_flag_seen', 'trigger_ok', 'seq_flags_checked', 'repeat_checked', 'pair_ok'):
         if not g.get(name):
             out.append(f"never observed: {name}")
     return out
